@@ -607,6 +607,82 @@ def keyframes [Scalar α] (img : ImgInfo) (frames : List (Frame α)) : List (Can
   let C := mkCfg img id frames
   (Spec.run C C.hdrs).keys
 
+/-! ### Patches
+
+A frame with a patch dictionary has rectangles of earlier reference frames blended into its own
+samples before it is composed (`render_features` → `blend::patch`). Specified for what an encoder
+produces: the source is a reference-only frame (stored as it is, frame sized), the rectangle lies
+inside it. Targets may stick out of the frame; what is outside is dropped. -/
+
+structure PatchTarget where
+  x : Int := 0
+  y : Int := 0
+  /-- colour, then one per extra channel: mode, alpha channel (extra channel index), clamp -/
+  infos : List (PatchMode × Nat × Bool) := []
+  deriving Inhabited
+
+structure PatchRef where
+  ref : Nat := 0
+  x0 : Nat := 0
+  y0 : Nat := 0
+  w : Nat := 1
+  h : Nat := 1
+  targets : List PatchTarget := []
+  deriving Inhabited
+
+/-- one target: every channel of the frame at once -/
+def applyTarget [Scalar α] (img : ImgInfo) (src : List (Plane α)) (p : PatchRef) (t : PatchTarget)
+    (chans : List (Plane α)) : List (Plane α) :=
+  (List.range chans.length).map fun c =>
+    let pl := chans.getD c {}
+    Plane.ofFn pl.w pl.h fun x y =>
+      let ix := (x : Int) - t.x
+      let iy := (y : Int) - t.y
+      if 0 ≤ ix ∧ ix < p.w ∧ 0 ≤ iy ∧ iy < p.h then
+        let base := chans.map fun q => q.get x y
+        let rv := src.map fun q => q.get (p.x0 + ix.toNat) (p.y0 + iy.toNat)
+        (patchPixel img.colorChannels img.ecAlphaAssoc t.infos base rv).getD c Scalar.zero
+      else pl.get x y
+
+/-- the frame's samples after its patch dictionary; `srcOf s` = the stored image of reference slot `s` -/
+def applyPatches [Scalar α] (img : ImgInfo) (srcOf : Nat → List (Plane α)) (ps : List PatchRef)
+    (chans : List (Plane α)) : List (Plane α) :=
+  ps.foldl (fun ch p => p.targets.foldl (fun ch t => applyTarget img (srcOf p.ref) p t ch) ch) chans
+
+/-- a decoded frame with its patch dictionary -/
+structure FrameP (α : Type) where
+  frame : Frame α := {}
+  patches : List PatchRef := []
+  deriving Inhabited
+
+structure PState (α : Type) where
+  slots : Nat → Option (Canvas α) := fun _ => none
+  /-- the own samples (frame sized, patches applied) of the frame in a slot when that frame is not blended -/
+  raw : Nat → Option (List (Plane α)) := fun _ => none
+  keys : List (Canvas α) := []
+
+def stepP [Scalar α] (img : ImgInfo) (st : PState α) (f : FrameP α) : PState α :=
+  let srcOf := fun s => match st.raw s with
+    | some planes => planes
+    | none => (st.slots s).getD []
+  let chans := applyPatches img srcOf f.patches f.frame.chans
+  let hdr := f.frame.hdr
+  let v := blendFrame img id { f.frame with chans := chans } ((hdr.chanSources img).map st.slots)
+  let s := hdr.saveAsRef % 4
+  { slots := if hdr.canReference then upd st.slots s (some v) else st.slots
+    raw := if hdr.canReference then upd st.raw s (if hdr.isNormal then none else some chans) else st.raw
+    keys := if hdr.isKeyframe then st.keys ++ [v] else st.keys }
+
+def cutAtLastP : List (FrameP α) → List (FrameP α)
+  | [] => []
+  | f :: fs => if f.frame.hdr.isNormal && f.frame.hdr.isLast then [f] else f :: cutAtLastP fs
+
+/-- every keyframe canvas of an image whose frames may carry patches: the same sequential
+composition as `keyframes` (to which it reduces when no frame has a patch: the driver uses
+`keyframes` then, and the check runs patch-free images through both) -/
+def keyframesP [Scalar α] (img : ImgInfo) (frames : List (FrameP α)) : List (Canvas α) :=
+  ((cutAtLastP frames).foldl (stepP img) {}).keys
+
 /-- integer samples of a decoded Modular channel to scalars, `parse_integer_sample` -/
 def planeOfInts [Scalar α] (bits w h : Nat) (data : Array Int) : Plane α :=
   { w, h, data := data.map (Scalar.ofSample bits) }
